@@ -97,17 +97,18 @@ Definition arm_tag (t : tree) (x : sr) : N :=
   | Parent ss se l r =>
       let sp := span_e l in
       let o := range_cmp ss se (rs x) (re x) in
-      (10 * rord_code o +
-       match o with
-       | Some LeftFirstDisjoint => 0
-       | Some LeftFirstOverlap => if sp >? rs x then 2 else 0
-       | Some RightContained => if rs x >=? sp then 0 else if re x <=? sp then 1 else 2
-       | Some REqual => if sp >? rs x then 2 else 3
-       | Some LeftContained => 2
-       | Some RightFirstOverlap => if sp <? re x then 2 else 1
-       | Some RightFirstDisjoint => 1
-       | None => 9
-       end)%N
+      let sub : N :=
+        match o with
+        | Some LeftFirstDisjoint => 0%N
+        | Some LeftFirstOverlap => if sp >? rs x then 2%N else 0%N
+        | Some RightContained => if rs x >=? sp then 0%N else if re x <=? sp then 1%N else 2%N
+        | Some REqual => if sp >? rs x then 2%N else 3%N
+        | Some LeftContained => 2%N
+        | Some RightFirstOverlap => if sp <? re x then 2%N else 1%N
+        | Some RightFirstDisjoint => 1%N
+        | None => 9%N
+        end in
+      (10 * rord_code o + sub)%N
   end.
 
 Definition last_arm (init : sr) (ops : list (sr * bool)) : N :=
